@@ -14,6 +14,20 @@ def leaf_sig(t, env, depth=0):
     if k in ("SEQUENCE OF", "SET OF"): return {k} | leaf_sig(t["elem"], env, depth + 1)
     return {k}
 
+def skip_region(syn, feats, skipped):
+    """Dom_C01: regions of known findings are skipped; their witnesses are replayed separately."""
+    fid = None
+    if syn in ("uper", "oer") and "SET" in feats: fid = "F32"
+    elif syn == "oer" and "choice_tag_ge128" in feats: fid = "F34"
+    elif syn == "oer" and "wide_int_fixed_oer" in feats: fid = "F36"
+    elif syn == "uper" and "inline_printable" in feats: fid = "F37"
+    elif syn == "uper" and "named_plain_numeric" in feats: fid = "F46"
+    elif syn == "uper" and "choice_alias" in feats: fid = "F38"
+    elif syn == "uper" and "semi_nonzero_lb" in feats: fid = "F42"
+    elif syn == "xer" and "REAL" in feats: fid = "F40"
+    if fid: skipped[fid] += 1
+    return fid is not None
+
 def gen_bundles(ctx, n, ntypes=10, **kw):
     out = []
     for i in range(n):
@@ -22,6 +36,17 @@ def gen_bundles(ctx, n, ntypes=10, **kw):
         m = g.gen_module(f"M{i}", ntypes)
         out.append(m)
     return out
+
+def replay(ctx, path):
+    import json
+    r = json.load(open(path))
+    ctx.lean()
+    names = re.findall(r"^\s*(\w+) ::=", r["module"], re.M)
+    b = bundle.Bundle("replay", r["module"], names)
+    exe = b.build()
+    outs, _ = ctx.run_c_bisect(exe, [r["op"]])
+    print("replay:", r["op"][:300], "=>", str(outs[0])[:600])
+    b.cleanup()
 
 def run(ctx):
     ctx.lean()
@@ -35,7 +60,8 @@ def run(ctx):
     total = 0
     f30 = 0
     built = 0
-    for m in mods:
+    bm, bvals = genmod.boundary_module(ctx.rng, ctx.quick)
+    for m in [bm] + mods:
         txt = genmod.module_text(m)
         env = dict(m["types"])
         b = bundle.Bundle(m["name"], txt, [n for n, _ in m["types"]])
@@ -52,20 +78,27 @@ def run(ctx):
         vg = genmod.ValGen(ctx.rng, env)
         lines = []; meta = []
         for n, t in m["types"]:
-            for v in vg.values(t, nvals):
+            for v in (bvals[n] if m is bm else vg.values(t, nvals)):
                 sx = genmod.val_sexp(t, v, env)
                 lines.append(f"@{n} echo " + sx); meta.append(("echo", n, sx))
                 feats = gfind.features(t, env)
-                for syn in SYNTAXES:
-                    # Dom_C01: regions of known findings are skipped; their witnesses are replayed separately
-                    if syn in ("uper", "oer") and "SET" in feats: skipped["F32"] += 1; continue
-                    if syn == "oer" and "choice_tag_ge128" in feats: skipped["F34"] += 1; continue
-                    if syn == "oer" and "wide_int_fixed_oer" in feats: skipped["F36"] += 1; continue
-                    if syn == "uper" and "inline_printable" in feats: skipped["F37"] += 1; continue
-                    if syn == "uper" and "choice_alias" in feats: skipped["F38"] += 1; continue
-                    if syn == "uper" and "semi_nonzero_lb" in feats: skipped["F42"] += 1; continue
-                    if syn == "xer" and "REAL" in feats: skipped["F40"] += 1; continue
+                ok_syn = [syn for syn in SYNTAXES if not skip_region(syn, feats, skipped)]
+                for syn in ok_syn:
+                    if syn in ("xer", "cxer") and len(sx) > 20000: continue      # keep XER text small (time)
                     lines.append(f"@{n} rt {syn} {sx}"); meta.append((syn, n, sx))
+        # transcoding: every ordered pair of admissible syntaxes once per type, plus a longer chain
+        for n, t in m["types"]:
+            feats = gfind.features(t, env)
+            ok_syn = [syn for syn in SYNTAXES if not skip_region(syn, feats, collections.Counter())]
+            vs = vg.values(t, 3)
+            if not vs or len(ok_syn) < 2: continue
+            sx = genmod.val_sexp(t, vs[-1], env)
+            for a in ok_syn:
+                for b2 in ok_syn:
+                    if a != b2:
+                        lines.append(f"@{n} transcode 2 {a} {b2} {sx}"); meta.append(("chain", n, sx))
+            chain = [ctx.rng.choice(ok_syn) for _ in range(5)]
+            lines.append(f"@{n} transcode 5 {' '.join(chain)} {sx}"); meta.append(("chain", n, sx))
         outs, crashes = ctx.run_c_bisect(exe, lines)
         for l, o, me in zip(lines, outs, meta):
             if me is None: continue
@@ -75,6 +108,8 @@ def run(ctx):
             if o is None or o.startswith("CRASH"): why = "crash"
             elif kind == "echo":
                 if not genmod.same_value(env[tn], o, sx, env): why = "reflect-mismatch"
+            elif kind == "chain":
+                if o != "ok der_same=1 cmp=0": why = "transcode:" + o[:40]
             else:
                 mm = re.search(r"rc=(\w+) consumed=(\d+)/(\d+)(?: cmp=(-?\d+) der_same=(\d) val=(.*))?$", o)
                 if not o.startswith("ok "): why = "encode:" + o.split()[0]
@@ -89,17 +124,22 @@ def run(ctx):
                 sig = ",".join(sorted(leaf_sig(env[tn], env)))
                 key = (kind, why, sig if len(sig) < 60 else sig[:60])
                 fails[key] += 1
-                samples.setdefault(key, (m["name"], tn, l[:400], str(o)[:300], genmod.type_text(env[tn])[:400].replace("\n", " ")))
+                samples.setdefault(key, (m["name"], tn, l[:400], str(o)[:300], genmod.type_text(env[tn])[:400].replace("\n", " "), txt, l, str(o)))
             else:
                 ctx.count_nontrivial((kind, tn, sx[:80]))
         b.cleanup()
     ctx.cov["evaluations"] += total
     ctx.cov["predicate"]["roundtrip"] = {"modules_built": built, "cases": total, "failure_classes": len(fails), "skipped_known_regions": dict(skipped), "F30_xer_newline": f30}
     agg = collections.Counter()
+    nviol = 0
     for (kind, why, sig), n in fails.items(): agg[(kind, why)] += n
     for (kind, why), n in agg.most_common(25):
         ex = next(k for k in samples if k[0] == kind and k[1] == why) if any(k[0] == kind and k[1] == why for k in samples) else None
-        sm = samples.get(ex, ("", "", "", "", ""))
+        sm = samples.get(ex, ("", "", "", "", "", "", "", ""))
+        if nviol < 5:
+            nviol += 1
+            ctx.violation(f"C01 round trip fails on C ({kind}: {why}) for type {sm[1]}: {sm[2][:200]} -> {sm[3][:160]}",
+                          {"module": sm[5], "type": sm[1], "op": sm[6], "c_output": sm[7], "failure": why, "syntax": kind, "count_in_class": n})
         if why == "consumed-1" and kind == "xer": ctx.log("FAIL", n, kind, why); continue
         ctx.log("FAIL", n, kind, why, "|", sm[0], sm[2][:150], "=>", sm[3][:90], "| TYPE", " ".join(sm[4].split())[:300])
     ctx.cov["rule"] = "generated modules x boundary-first values x 5 syntaxes; round trip on C"
